@@ -2,6 +2,8 @@ package props
 
 import (
 	"fmt"
+	"go/token"
+	"go/types"
 
 	"golang.org/x/tools/go/ssa"
 
@@ -173,6 +175,23 @@ func ruleR14b(h *H) {
 		}
 		h.Verdict(ok, rule, "session callback "+m+" removes the previous shadow", h.P.Pos(fn.Pos()), "reaches the shadow removal", "the session callback's "+m+" never removes the shadow entry of the record's previous owner: the old session would still delete the record when it ends")
 	}
+	ruleWrapperChainWith(h, rule, sessG, idxG, wrapT)
+	ruleCallbackBeforeMutation(h, rule)
+}
+
+// ruleWrapperChain (shared with C15): the wrapper callback handed to ProcessWrite runs the
+// session callback first and the index callback only when the session step accepted the
+// operation (no error, status OK).
+func ruleWrapperChain(h *H, rule string) {
+	sessT, sessG, idxT, idxG, wrapT := callbackSingletons(h)
+	if sessT == "" || idxT == "" || wrapT == "" {
+		h.Anchor(rule, "the session / index / wrapper callback singletons of package server")
+		return
+	}
+	ruleWrapperChainWith(h, rule, sessG, idxG, wrapT)
+}
+
+func ruleWrapperChainWith(h *H, rule string, sessG, idxG *ssa.Global, wrapT string) {
 	for _, m := range cbMethodNames {
 		fn := h.P.Func("server", wrapT, m)
 		if fn == nil {
@@ -208,9 +227,27 @@ func ruleR14b(h *H) {
 				}
 			}
 		}
+		if ok {
+			// a session step that answers with a status other than OK (session gone) must not
+			// run the index step either
+			if call, isCall := sessCall.(*ssa.Call); isCall && call.Type().String() != "error" {
+				if tup, isTuple := call.Type().(*types.Tuple); isTuple && tup.Len() == 2 && ir.TypeIs(tup.At(0).Type(), "proto", "Status") {
+					guarded := false
+					for _, g := range ir.CmpGuards(idxCall) {
+						for _, c := range []ir.Cmp{g, g.Flip()} {
+							if ex, isEx := ir.Canon(c.L).(*ssa.Extract); isEx && ex.Tuple == ssa.Value(call) && ex.Index == 0 && c.Op == token.EQL && h.isConst(c.R, "proto", "Status_OK") {
+								guarded = true
+							}
+						}
+					}
+					if !guarded {
+						ok, bad = false, "the index callback runs although the session callback rejected the operation with a status: index entries are written for a record that is not stored"
+					}
+				}
+			}
+		}
 		h.Verdict(ok, rule, "wrapper "+m+" chains both callbacks", h.P.Pos(fn.Pos()), detail, bad)
 	}
-	ruleCallbackBeforeMutation(h, rule)
 }
 
 // ruleCallbackBeforeMutation: in the kv apply functions the update callback runs before
